@@ -98,6 +98,10 @@ def inject_part(g, spec):
         out.append(("unknown part type", dict(spec, type="set_value")))
         out.append(("unknown part argument", dict(spec, colour="red")))
         out.append(("value must be value-like", dict(spec, value={"key.equal_to": 1})))
+        # arguments that a part of this type accepts but does not use are still specs: a malformed one is rejected
+        bad = g.r.choice([{"value.nonsense": 1}, {"bogus.equal_to": 1}, {"and": 3}, {"value.equal_to": 1, "value.lt": 2}, {"value.dtype.equal_to": "complex"}, [1]])
+        out.append(("malformed list_condition", dict(spec, list_condition=bad)))
+        out.append(("malformed map_condition", dict(spec, map_condition=bad)))
         if spec.get("type") == "map_value":
             out.append(("key must be key-like", dict(spec, key={"value.equal_to": 1})))
     return out
